@@ -95,8 +95,13 @@ class ClientSession(object):
 #
 class MiniPilot(object):
 
-    def __init__(self, workdir, seed=0, cores=8, poison=None):
+    def __init__(self, workdir, seed=0, cores=8, poison=None, pilots=1):
 
+        # `pilots` > 1: the task manager knows several pilots; all of them are
+        # served by the one agent pipeline (the agent relay listens on each
+        # pilot's proxy queue name), so client side multi-pilot paths run while
+        # every task still has a live pilot
+        self.pids   = [PID] + ['pilot.%04d' % i for i in range(1, pilots)]
         self.root   = os.path.realpath(workdir)
         self.poison = poison or dict()        # uid -> fault point
         self.hits   = set()
@@ -185,6 +190,13 @@ class MiniPilot(object):
                           cb=a0._proxy_input_cb)
         a0.register_input(rps.TMGR_STAGING_OUTPUT_PENDING,
                           rpc.AGENT_COLLECTING_QUEUE, cb=a0._proxy_output_cb)
+        for alias in self.pids[1:]:
+            # same real relay callback, other proxy queue name
+            def relay(tasks, _cb=a0._proxy_input_cb):
+                return _cb(tasks)
+            relay.__name__ = '_proxy_input_cb_%s' % alias.replace('.', '_')
+            a0.register_input(rps.AGENT_STAGING_INPUT_PENDING,
+                              rpc.PROXY_TASK_QUEUE, qname=alias, cb=relay)
         self.agent0 = a0
 
         for name, comp in (('agent_stagein', self.stagein),
@@ -225,11 +237,14 @@ class MiniPilot(object):
             comp._initialize()
             self.components[name] = comp
 
-        self.pilot_doc = {'uid': PID, 'type': 'pilot',
-                          'state': rps.PMGR_ACTIVE,
-                          'description': {'resource': 'local.localhost',
-                                          'cores': 8, 'access_schema': 'local'},
-                          'js_hop': 'fork://localhost/'}
+        self.pilot_docs = [{'uid': pid, 'type': 'pilot',
+                            'state': rps.PMGR_ACTIVE,
+                            'description': {'resource': 'local.localhost',
+                                            'cores': 8,
+                                            'access_schema': 'local'},
+                            'js_hop': 'fork://localhost/'}
+                           for pid in self.pids]
+        self.pilot_doc = self.pilot_docs[0]
 
     # --------------------------------------------------------------------------
     def _install_poison(self):
@@ -306,7 +321,7 @@ class MiniPilot(object):
         # the task manager learns about the pilot
         self.tmgr.publish(rpc.CONTROL_PUBSUB,
                           {'cmd': 'add_pilots',
-                           'arg': {'pilots': [self.pilot_doc],
+                           'arg': {'pilots': self.pilot_docs,
                                    'tmgr': 'tmgr.0000'}})
 
     def alive(self):
